@@ -28,7 +28,7 @@ def run(tier, seed, only=None):
     verdicts = C.Verdicts(PROP)
     g = C.run_tlc("Gen_Project", "Gen_Project_disc", workers=4, timeout=900, heap="8g")
     cases = g.json_lines("REPLAY")
-    if len(cases) < 29700:
+    if len(cases) < 35000:
         raise C.ToolError("too few discovery cases: %d" % len(cases))
     total = len(cases)
     rnd = random.Random(seed)
@@ -87,7 +87,7 @@ def run(tier, seed, only=None):
             c = pk.get(int(n))
             if not c:
                 continue
-            expected = c["pc"] in ("root", "depth1", "depth3", "sibling_targets", "file_named_target", "git_lookalike", "dotdir", "beside_git_file", "beside_target_file", "beside_target_link") \
+            expected = c["pc"] in ("root", "depth1", "depth3", "sibling_targets", "file_named_target", "git_lookalike", "dotdir", "beside_git_file", "beside_target_file", "beside_target_link", "module_named_build", "module_named_mod", "module_named_main") \
                 and c["parsable"] and c["pos"] == "top" and c["attr"] in PC.ATTR_TEXT and c["attr"] not in ("none", "other_command", "tauri_other", "command_in_doc_only")
             key = "layout=%s pc=%s parsable=%s attr=%s pos=%s" % (ev["layout"], c["pc"], c["parsable"], c["attr"], c["pos"])
             if key in seen:
